@@ -1178,13 +1178,17 @@ class FuncEmitter:
             t = self.cls(d)
             init = [x for x in d['inner'] if x['kind'] != 'BindingDecl']
             binds = [x for x in d['inner'] if x['kind'] == 'BindingDecl']
-            if not (t.isref or t.isrref):
-                abort('structured binding by value', d)
-            name = self.fresh('decomp')
-            self.out('%s *%s = &(%s);' % (self.ctype(t), name, self.expr(init[0])))
-            fields = {'pair': ['first', 'second'], 'pairkopt': ['first', 'second'], 'pairkb': ['first', 'second'], 'mapnode': ['first', 'second'], 'tuple3': ['_0', '_1', '_2']}.get(t.k)
+            fields = {'pair': ['first', 'second'], 'pairkopt': ['first', 'second'], 'pairkb': ['first', 'second'], 'mapnode': ['first', 'second'], 'tuple3': ['_0', '_1', '_2'], 'emplres': ['first', 'second']}.get(t.k)
             if not fields or len(fields) != len(binds):
                 abort('structured binding over a type without a rule: ' + t.src, d)
+            name = self.fresh('decomp')
+            if not (t.isref or t.isrref):
+                # by value: the bindings name the fields of a local copy
+                self.out('%s %s = %s;' % (self.ctype(t), name, self.expr(init[0])))
+                for i, b in enumerate(binds):
+                    self.bindings[b['id']] = '%s.%s' % (name, fields[i])
+                return
+            self.out('%s *%s = &(%s);' % (self.ctype(t), name, self.expr(init[0])))
             for i, b in enumerate(binds):
                 self.bindings[b['id']] = '(*%s).%s' % (name, fields[i])
         else:
@@ -1241,6 +1245,19 @@ class FuncEmitter:
                 return '0'
             if len(inner) == 1:
                 return self.expr(inner[0])
+        if t.k == 'record':
+            vals = []
+            for x in inner:
+                sx = self.strip_wrappers(x)
+                if sx['kind'] == 'ImplicitValueInitExpr' or (sx['kind'] == 'CXXConstructExpr' and not sx.get('inner')):
+                    vals.append(None)
+                else:
+                    vals.append(self.expr(x))
+            if all(v is None for v in vals):
+                return '((%s){0})' % self.ctype(t)   # T{}: every field value-initialised
+            fields = self.cx.records.get('%s__%s' % (self.cx.name, t.rec))
+            if fields and len(vals) == len(fields):
+                return '((%s){%s})' % (self.ctype(t), ', '.join('0' if v is None else v for v in vals))
         abort('init list without a rule: ' + t.src, e)
 
     def x_ImplicitCastExpr(self, e):
@@ -1258,6 +1275,8 @@ class FuncEmitter:
         ck = e.get('castKind')
         if ck in ('NoOp', 'IntegralCast', 'FloatingToIntegral', 'IntegralToFloating', 'FloatingCast'):
             return '((%s)(%s))' % (self.ctype(self.cls(e)), self.expr(e['inner'][0]))
+        if ck == 'ToVoid':
+            return '((void)(%s))' % self.expr(e['inner'][0])
         abort('explicit cast kind without a rule: %s' % ck, e)
 
     x_CXXStaticCastExpr = x_CStyleCastExpr
@@ -1562,6 +1581,8 @@ class FuncEmitter:
                 return 'cstl_opt_value(&%s)' % self.expr(base)
             if name == 'reset' and not args:
                 return '(%s = (cstl_opt){false, 0})' % self.expr(base)
+            if name == 'operator bool' and not args:
+                return '%s.has' % self.expr(base)
             abort('optional operation without a rule: ' + name, e)
         if bt.k in ('list', 'hash', 'map', 'mmap', 'vector'):
             m = self.model_for_container(bt, e)
@@ -1781,6 +1802,8 @@ class FuncEmitter:
             if t0.k == 'iter':
                 m = self.model_for_iter(t0, e)
                 return '(*%s_deref(%s, %s))' % (m.name, self.pool(m), self.expr(a0))
+            if t0.k == 'opt':
+                return 'cstl_opt_value(&(%s))' % self.expr(a0)
             abort('unary * on %s' % t0.src, e)
         if op == '->':
             if t0.k == 'iter':
@@ -1789,6 +1812,12 @@ class FuncEmitter:
             abort('operator-> on %s' % t0.src, e)
         if op in ('++', '--'):
             if len(args) != 1:
+                if t0.k == 'iter' and t0.fam == 'list':
+                    # it++ / it--: the old value is the result
+                    m = self.model_for_iter(t0, e)
+                    x = self.expr(a0)
+                    o = self.fresh('old')
+                    return '({ cstl_iter %s = %s; %s = %s_%s(%s, %s); %s; })' % (o, x, x, m.name, 'next' if op == '++' else 'prev', self.pool(m), x, o)
                 abort('postfix ++/-- on an iterator', e)
             x = self.expr(a0)
             if t0.k == 'ptr':
